@@ -194,7 +194,7 @@ def run_check(pid, tier, jobs=None, only_task=None):
     # copy.deepcopy (equal but not identical GateType objects); modules may choose their own tasks / variants
     pred = getattr(mod, 'VARIANT_PRED', _default_variant_pred)
     extra = []
-    for v in getattr(mod, 'VARIANTS', ('deepcopy',)):
+    for v in getattr(mod, 'VARIANTS', ('deepcopy', 'requeried')):
         extra += [{**t, 'variant': v} for t in tasks if isinstance(t, dict) and 'variant' not in t and pred(t, v)]
     tasks = tasks + extra
     if only_task is not None:
@@ -257,8 +257,9 @@ def run_check(pid, tier, jobs=None, only_task=None):
     desc = mod.describe(tier) if hasattr(mod, 'describe') else {}
     if extra and isinstance(desc.get('rule'), str):
         kinds = sorted({t['variant'] for t in extra})
-        desc['rule'] += (f' Object variants: {len(extra)} of the smallest tasks are run a second time with every harness-built circuit '
-                         f'handed to the library as another Python object ({", ".join(kinds)}: equal but not identical GateType / label objects).')
+        desc['rule'] += (f' Object variants: {len(extra)} re-runs of the smallest tasks with every harness-built circuit handed to the library '
+                         f'as another Python object ({", ".join(kinds)}; deepcopy / fresh-labels: equal but not identical GateType / label objects; '
+                         f'requeried: the circuit is reached by a detour - a precursor with reversed inputs and another last gate is built, queried in every read-only way, then mutated into the wanted circuit).')
     distinct = {k: len(v) for k, v in total.outcomes.items()}
     coverage = {
         'states': int(total.states),
